@@ -16,9 +16,9 @@ import lsp
 UNI = CLI.UNI
 
 
-def run(V, tier, want):
-    """want: subset of {"c01", "c04", "c05"}; returns number of sessions"""
-    meta = L.load_cases("Layouts_cli.cfg")
+def run(V, tier, want, cfg="Layouts_cli.cfg"):
+    """want: subset of {"c01", "c02", "c04", "c05"}; returns number of sessions"""
+    meta = L.load_cases(cfg)
     C.build_server()
     by_shape = {}
     for case in C.tlc_cases(meta):
@@ -82,6 +82,19 @@ def run(V, tier, want):
                 path = CLI.disk_path(root, slot)
                 lens = srv.doc_request("textDocument/codeLens", path) or []
                 out["lenses"][slot] = [(l["range"]["start"]["line"] + 1, l["command"]["title"]) for l in lens]
+                # C02: the NAME of an overriding fixture that requests its own name: definition and references asked there
+                if "c02" in want and slot != "pl":      # (the plugin source lives outside the materialised workspace root)
+                    for idx, (dl, ns, ne) in r.def_name_pos.items():
+                        it = cases[0]["ws"][slot]["items"][idx - 1]
+                        if it["name"] not in L.case_list(it["deps"]):
+                            continue
+                        for col in (ns, ne - 1):
+                            refs = srv.pos_request("textDocument/references", path, dl - 1, col, {"context": {"includeDeclaration": True}})
+                            out.setdefault("defname", []).append({
+                                "d": [slot, idx], "col": col,
+                                "definition": loc_key(srv.pos_request("textDocument/definition", path, dl - 1, col), ws),
+                                "references": [(os.path.relpath(lsp.uri_to_path(x["uri"]), ws), x["range"]["start"]["line"] + 1,
+                                                x["range"]["start"]["character"]) for x in (refs or [])]})
                 # outgoing calls of every fixture defined in this file
                 for idx, (dl, ns, ne) in r.def_name_pos.items():
                     pc = srv.pos_request("textDocument/prepareCallHierarchy", path, dl - 1, ns)
@@ -168,6 +181,33 @@ def run(V, tier, want):
                         V.violation(dict(e2, lens=title, references=refs), "code lens usage count is smaller than the reference list")
                 if "incoming" in rec and rec["incoming"] > (int(title.split()[0]) if title else 10 ** 6):
                     V.violation(dict(e2, lens=title, incoming=rec["incoming"]), "incoming calls exceed the code lens usage count")
+        if "c02" in want:
+            # usages (relative path, line, column) by the definition the real server navigates to from them
+            by_def = {}
+            for rec in r["positions"]:
+                ln, cs, ce = ctx.use_pos(rec["u"])
+                by_def.setdefault(rec["definition"], set()).add((CLI.rel_of_slot(rec["u"]["file"]), ln, cs))
+                # the self-named parameter never navigates to its own fixture
+                it = case0["ws"][rec["u"]["file"]]["items"][rec["u"]["idx"] - 1]
+                if it["k"] == "def" and rec["u"]["uk"] == "p" and rec["name"] == it["name"] and rec["u"]["file"] != "pl":
+                    V.count()
+                    if rec["definition"] == rel_def((rec["u"]["file"], rec["u"]["idx"])):
+                        V.violation(dict(ex, usage=rec["u"], definition=rec["definition"]),
+                                    "textDocument/definition on a self-named parameter returns the overriding fixture itself")
+            for dn in r.get("defname", []):
+                V.count()
+                V.nontriv((sk, tuple(dn["d"]), dn["col"], "defname"))
+                me = rel_def(tuple(dn["d"]))
+                e5 = dict(ex, fixture=dn["d"], col=dn["col"], definition=dn["definition"], references=dn["references"])
+                if dn["definition"] is not None and dn["definition"] != me:
+                    V.violation(e5, "textDocument/definition on an overriding fixture's NAME left the override")
+                refs = [x for x in dn["references"] if (x[0], x[1]) != me]
+                if len(refs) != len(set(refs)):
+                    V.violation(e5, "textDocument/references from an overriding fixture's name lists a location twice")
+                want_refs = by_def.get(me, set())
+                if set(refs) != want_refs:
+                    V.violation(dict(e5, expected=sorted(want_refs)),
+                                "textDocument/references from an overriding fixture's NAME are not the usages that navigate to it")
         if "c05" in want:
             for og in r.get("outgoing", []):
                 for c in cases[:1]:
